@@ -122,59 +122,78 @@ Section Balance.
     - reflexivity.
   Qed.
 
+  (** what the publications of the meta session need of the realm *)
+  Definition lwf (r : realm) : Prop :=
+    broker_wf (r_broker r) /\ s_id (r_meta r) = meta_id /\ find_session (r_clients r) meta_id = None.
+
+  Lemma lwf_of_wf : forall r, realm_wf r -> lwf r.
+  Proof. intros r W. split; [apply (rw_broker r W)|]. split; [apply (rw_meta_id r W)|apply (rw_no_meta r W)]. Qed.
+
+  Lemma lwf_same : forall r r', lwf r -> r_broker r' = r_broker r -> r_meta r' = r_meta r -> r_clients r' = r_clients r -> lwf r'.
+  Proof. intros r r' (A & B & C) E1 E2 E3. unfold lwf. rewrite E1, E2, E3. auto. Qed.
+
+  Lemma meta_publish_lwf : forall r mp, lwf r -> lwf (fst (meta_publish r mp)).
+  Proof.
+    intros r mp (A & B & C). destruct (meta_publish_frame r mp) as (_ & Fc & Fm & _).
+    unfold lwf. rewrite Fc, Fm. split; [|auto]. unfold meta_publish.
+    destruct (publish _ _ _ _ _ _ _ _ _ _ _) as [[b pg] o] eqn:E. cbn [fst r_broker r_set_broker].
+    eapply publish_wf; eauto.
+  Qed.
+
   (** ** Publications of the meta session *)
-  Lemma OBS_lookup : forall r, realm_wf r -> OBS r ->
+  Lemma OBS_lookup : forall r, lwf r -> OBS r ->
       exists rs, lookup r z = Some rs /\ z <> meta_id.
   Proof.
-    intros r W [C _]. unfold client in C. destruct (find_session (r_clients r) z) as [rs|] eqn:F; [|contradiction].
-    assert (Hz : z <> meta_id) by (intros ->; rewrite (rw_no_meta r W) in F; discriminate).
+    intros r (_ & _ & Wn) [C _]. unfold client in C. destruct (find_session (r_clients r) z) as [rs|] eqn:F; [|contradiction].
+    assert (Hz : z <> meta_id) by (intros ->; rewrite Wn in F; discriminate).
     exists rs. split; [|exact Hz]. unfold lookup. destruct (N.eqb_spec z meta_id); [contradiction|exact F].
   Qed.
 
-  Lemma meta_publish_OBS : forall r mp, realm_wf r -> OBS r -> OBS (fst (meta_publish r mp)).
+  Lemma meta_publish_OBS : forall r mp, lwf r -> OBS r -> OBS (fst (meta_publish r mp)).
   Proof.
-    intros r mp W [C B]. destruct (meta_publish_frame r mp) as (_ & Fc & _).
+    intros r mp (W & Wm & Wn) [C B]. destruct (meta_publish_frame r mp) as (_ & Fc & _).
     split; [unfold client; rewrite Fc; exact C|].
     unfold meta_publish.
     pose proof (OBSb_publish z J L (r_cfg r) (lookup r) (r_now r) (r_broker r) (r_pubgen r) (r_meta r) 0
-                             (mp_opts mp) (mp_topic mp) (mp_args mp) (mp_kw mp) (wf_core _ (rw_broker r W)) B) as P.
+                             (mp_opts mp) (mp_topic mp) (mp_args mp) (mp_kw mp) (wf_core _ W) B) as P.
     destruct (publish _ _ _ _ _ _ _ _ _ _ _) as [[b pg] o]. exact P.
   Qed.
 
-  Lemma meta_publish_obs_other : forall r mp, realm_wf r -> OBS r -> forging (mp_topic mp) = false ->
+  Lemma meta_publish_obs_other : forall r mp, lwf r -> OBS r -> forging (mp_topic mp) = false ->
       obs (snd (meta_publish r mp)) = [].
   Proof.
-    intros r mp W [C B] Hf. unfold meta_publish.
+    intros r mp (W & Wm & Wn) [C B] Hf. unfold meta_publish.
     pose proof (publish_obs_other (r_cfg r) (lookup r) (r_now r) (r_broker r) (r_pubgen r) (r_meta r) 0
-                                  (mp_opts mp) (mp_topic mp) (mp_args mp) (mp_kw mp) (wf_core _ (rw_broker r W)) B Hf) as P.
+                                  (mp_opts mp) (mp_topic mp) (mp_args mp) (mp_kw mp) (wf_core _ W) B Hf) as P.
     destruct (publish _ _ _ _ _ _ _ _ _ _ _) as [[b pg] o]. exact P.
   Qed.
 
-  Lemma meta_publish_obs_one : forall r topic args S, realm_wf r -> OBS r ->
+  Lemma meta_publish_obs_one : forall r topic args S, lwf r -> OBS r ->
       (S = J /\ topic = t_on_join) \/ (S = L /\ topic = t_on_leave) ->
       obs (snd (meta_publish r (mkMetaPub topic args [] []))) = sub_read S args.
   Proof.
     intros r topic args S W O HS. destruct (OBS_lookup r W O) as (rs & Hl & Hz). destruct O as [C B].
+    destruct W as (W & Wm & Wn).
     unfold meta_publish. cbn [mp_opts mp_topic mp_args mp_kw].
     pose proof (publish_obs_one (r_cfg r) (lookup r) (r_now r) (r_broker r) (r_pubgen r) (r_meta r) 0 topic args [] S rs
-                                (wf_core _ (rw_broker r W)) (lookup_ok_realm r (rw_meta_id r W)) B HS Hl) as P.
-    rewrite (rw_meta_id r W) in P. specialize (P Hz).
+                                (wf_core _ W) (lookup_ok_realm r Wm) B HS Hl) as P.
+    rewrite Wm in P. specialize (P Hz).
     destruct (publish _ _ _ _ _ _ _ _ _ _ _) as [[b pg] o]. exact P.
   Qed.
 
-  Lemma meta_publish_all_other : forall mps r k, realm_wf r -> ids_below k r -> OBS r ->
+  Lemma meta_publish_all_other : forall mps r, lwf r -> OBS r ->
       (forall mp, In mp mps -> forging (mp_topic mp) = false) ->
-      OBS (fst (meta_publish_all r mps)) /\ obs (snd (meta_publish_all r mps)) = [].
+      lwf (fst (meta_publish_all r mps)) /\ OBS (fst (meta_publish_all r mps)) /\ obs (snd (meta_publish_all r mps)) = [].
   Proof.
-    induction mps as [|mp mps IH]; intros r k W I O H; [rewrite meta_publish_all_nil; auto|].
+    induction mps as [|mp mps IH]; intros r W O H; [rewrite meta_publish_all_nil; auto|].
     rewrite meta_publish_all_cons.
     pose proof (meta_publish_OBS r mp W O) as O1.
     pose proof (meta_publish_obs_other r mp W O (H mp (or_introl eq_refl))) as E1.
-    destruct (meta_publish_wf r mp k W I) as [W1 I1].
+    pose proof (meta_publish_lwf r mp W) as W1.
     destruct (meta_publish r mp) as [r1 o1]. cbn [fst snd] in *.
-    destruct (IH r1 k W1 I1 O1 (fun m Hm => H m (or_intror Hm))) as [O2 E2].
+    destruct (IH r1 W1 O1 (fun m Hm => H m (or_intror Hm))) as (W2 & O2 & E2).
     destruct (meta_publish_all r1 mps) as [r2 o2]. cbn [fst snd] in *.
-    split; [exact O2|]. now rewrite obs_app, E1, E2.
+    split; [exact W2|]. split; [exact O2|]. now rewrite obs_app, E1, E2.
   Qed.
 
   Lemma meta_publish_all_one : forall r mp, meta_publish_all r [mp] = meta_publish r mp.
@@ -244,9 +263,8 @@ Section Balance.
     destruct (leave_core r sid) as [[r4 o12] mps]. cbn [fst snd] in *. destruct Lw as (W4 & I4 & _). destruct G as [O4 E12].
     subst mps.
     rewrite app_assoc, meta_publish_all_app.
-    destruct (meta_publish_all_other (reg_leave_events sid lre ++ testament_pubs r sid) r4 k W4 I4 O4) as [O5 E5].
+    destruct (meta_publish_all_other (reg_leave_events sid lre ++ testament_pubs r sid) r4 (lwf_of_wf r4 W4) O4) as (W5 & O5 & E5).
     { intros mp Hin. apply in_app_or in Hin. destruct Hin; [eapply reg_leave_events_topics; eauto|eapply testament_pubs_topics; eauto]. }
-    destruct (meta_publish_all_wf (reg_leave_events sid lre ++ testament_pubs r sid) r4 k W4 I4) as [W5 I5].
     destruct (meta_publish_all r4 _) as [r5 o5]. cbn [fst snd] in *.
     rewrite meta_publish_all_one.
     pose proof (meta_publish_OBS r5 (on_leave_pub s) W5 O5) as O6.
@@ -256,7 +274,7 @@ Section Balance.
     destruct (meta_publish r5 (on_leave_pub s)) as [r6 o6]. cbn [fst snd] in *.
     split; [exact O6|]. rewrite !obs_app, E12, E5, E6. cbn [app].
     unfold RealmTraceC18Obs.sub_read. rewrite N.eqb_refl.
-    destruct (N.eqb_spec L J) as [E|_]; [exfalso; destruct O5 as [_ B5]; exact (OBSb_JL _ (wf_core _ (rw_broker r5 W5)) B5 (eq_sym E))|].
+    destruct (N.eqb_spec L J) as [E|_]; [exfalso; destruct O5 as [_ B5]; exact (OBSb_JL _ (wf_core _ (proj1 W5)) B5 (eq_sym E))|].
     cbn [lread]. rewrite (find_session_id _ _ _ F).
     rewrite as_id_vid_ok; [reflexivity|]. rewrite <- (find_session_id _ _ _ F). apply (rw_ids r W). eapply find_session_In; eauto.
   Qed.
